@@ -201,26 +201,38 @@ def parseU64Digits (c : Cfg) (k : Comp) (b : Bytes) (m step : Nat) : Except Err 
 `is_prefix = true` even when the prefix character does not follow.
 `true` = /repo with `fixes/C12-base-prefix-swallows-leading-zero.diff` applied: the cursor in front of the `0` is
 remembered, `is_prefix = true` only when the prefix character follows, otherwise `iter.set_cursor(prefix_start)`.
-Flip it when the repair is committed in /repo (the theorems that must change then are listed in `Props/C12Prefix.lean`). -/
-def prefixRepair : Bool := false
+Every lemma about `prefixPhase` is proved for both values (`by_cases prefixRepair = true`). -/
+def prefixRepair : Bool := true
 
-/-- base-prefix handling (`format` only). Returns `is_prefix` and the advanced `Bytes`. -/
-def prefixPhase (c : Cfg) (b : Bytes) : Except Err (Bool × Bytes) :=
+/-- base-prefix handling before the repair (`prefixRepair = false`): the leading `0` stays consumed and `is_prefix = true`
+whether or not the prefix character follows -/
+def prefixPhaseCurrent (c : Cfg) (b : Bytes) : Except Err (Bool × Bytes) :=
+  if c.feats.format && c.basePrefix ≠ 0 then do
+    let (zero, b) ← readIfValueCased c .integer 48 b
+    if zero then
+      let (hit, b) ← readIfValue c .integer c.basePrefix c.caseSensitiveBasePrefix b
+      if hit && b.isBufferEmpty && c.requiredIntegerDigits then .error (.err "EmptyInteger" b.index)
+      else pure (true, b)
+    else pure (false, b)
+  else pure (false, b)
+
+/-- base-prefix handling of the repaired `parse_number`: `let prefix_start = iter.cursor();` …
+`if iter.read_if_value(base_prefix, …).is_some() { is_prefix = true; … } else { unsafe { iter.set_cursor(prefix_start) } }` -/
+def prefixPhaseRepaired (c : Cfg) (b : Bytes) : Except Err (Bool × Bytes) :=
   if c.feats.format && c.basePrefix ≠ 0 then do
     let (zero, b1) ← readIfValueCased c .integer 48 b
     if zero then
       let (hit, b2) ← readIfValue c .integer c.basePrefix c.caseSensitiveBasePrefix b1
-      if prefixRepair then
-        -- repaired: `if read_if_value(prefix) { is_prefix = true; … } else { unsafe { iter.set_cursor(prefix_start) } }`
-        if hit then
-          if b2.isBufferEmpty && c.requiredIntegerDigits then .error (.err "EmptyInteger" b2.index) else pure (true, b2)
-        else if b.index ≤ b2.slc.length then pure (false, { b2 with index := b.index })
-        else if c.debug then .error (.panic "set_cursor: index > buffer_length") else .error (.fault "set_cursor")
-      else
-        if hit && b2.isBufferEmpty && c.requiredIntegerDigits then .error (.err "EmptyInteger" b2.index)
-        else pure (true, b2)
+      if hit then
+        if b2.isBufferEmpty && c.requiredIntegerDigits then .error (.err "EmptyInteger" b2.index) else pure (true, b2)
+      else if b.index ≤ b2.slc.length then pure (false, { b2 with index := b.index })
+      else if c.debug then .error (.panic "set_cursor: index > buffer_length") else .error (.fault "set_cursor")
     else pure (false, b1)
   else pure (false, b)
+
+/-- base-prefix handling (`format` only). Returns `is_prefix` and the advanced `Bytes`. -/
+def prefixPhase (c : Cfg) (b : Bytes) : Except Err (Bool × Bytes) :=
+  if prefixRepair then prefixPhaseRepaired c b else prefixPhaseCurrent c b
 
 /-- `start.as_slice().get_unchecked(..n)` with its `debug_assert` -/
 def sliceTo (c : Cfg) (start : Bytes) (n : Nat) (tag : String) : Except Err (List Nat) :=
